@@ -11,7 +11,7 @@ import vlib
 from vlib import run3
 
 SAN_ENV = {'ASAN_OPTIONS': 'detect_leaks=0:abort_on_error=0:exitcode=99:detect_stack_use_after_return=0',
-           'UBSAN_OPTIONS': 'print_stacktrace=1:halt_on_error=1'}
+           'UBSAN_OPTIONS': 'print_stacktrace=1:halt_on_error=1', '_BIGSTACK': '1'}
 HARNESS_SRC = os.path.join(vlib.ROOT, 'harness', 'xcmp_harness.cpp')
 NPROC = min(16, vlib.NCPU)
 
@@ -92,11 +92,16 @@ def _run_shard(args):
     write_casefile(cf, sources)
     res = [None] * len(sources)
     start = 0
+    penv = {k: v for k, v in env.items() if not k.startswith('_')}
+
+    def cmdline(c):
+        # the sanitizer build runs with an unlimited stack: its instrumented frames are several times larger than the
+        # real tool's, so stack exhaustion is judged on the real executable (default 8 MB) instead
+        return vlib.big_stack(c) if env.get('_BIGSTACK') else c
     while start < len(sources):
         # a generous limit for the whole remaining batch; a single slow case is re-run alone below
         tmo = max(60, per_case_timeout + 0.25 * (len(sources) - start))
-        rc, out, err = run3(vlib.big_stack([harness, 'batch', cf, str(start)] + opts) if env.get('_BIGSTACK') else [harness, 'batch', cf, str(start)] + opts,
-                            cwd=workdir, env={k: v for k, v in env.items() if not k.startswith('_')}, timeout=tmo)
+        rc, out, err = run3(cmdline([harness, 'batch', cf, str(start)] + opts), cwd=workdir, env=penv, timeout=tmo)
         text = out.decode('latin1')
         d, ended = split_cases(text)
         done = start - 1
@@ -112,7 +117,7 @@ def _run_shard(args):
             # was it this case, or the batch limit?  re-run the single case with the per-case limit
             cf1 = os.path.join(workdir, 'one.bin')
             write_casefile(cf1, [sources[nxt]])
-            rc1, out1, err1 = run3([harness, 'batch', cf1, '0'] + opts, cwd=workdir, env={k: v for k, v in env.items() if not k.startswith('_')}, timeout=per_case_timeout)
+            rc1, out1, err1 = run3(cmdline([harness, 'batch', cf1, '0'] + opts), cwd=workdir, env=penv, timeout=per_case_timeout)
             d1, ended1 = split_cases(out1.decode('latin1'))
             if 0 in ended1:
                 res[nxt] = {'status': 'ok', 'lines': d1[0]}
